@@ -345,14 +345,16 @@ def _rand_global(rng):
         data = [v] * n
     elif style == 'zeros+one':
         # zeros and ONE other level: a single counted level once zeros are ignored
-        v = rng.choice([1, 2, 255, top, rng.randint(1, top)])
+        top2 = top if rng.random() < 0.3 else min(top, 1023)      # (the driver's exact table costs O(levels))
+        v = rng.choice([1, 2, 255, top2, rng.randint(1, top2)])
         data = [v if rng.random() < rng.choice([0.1, 0.5, 0.9]) else 0 for _ in range(n)]
         if rng.random() < 0.5:
             data[rng.randrange(n)] = v
     elif style == 'neartie-high':
         # nearly symmetric histograms far from level 0 with many pixels: the running means of the C loop lose the most
         # accuracy here (cancellation in mu_O), and sigma has two nearly equal local maxima
-        base = rng.randint(top // 2, max(top // 2, top - 8))
+        top2 = top if rng.random() < 0.3 else min(top, 4095)      # (the driver's exact table costs O(levels))
+        base = rng.randint(top2 // 2, max(top2 // 2, top2 - 8))
         m = rng.choice([50, 400, 2000])
         a, b = rng.randint(1, 3), rng.randint(1, 3)
         data = [base] * a + [base + 1] * m + [base + 2] * b
